@@ -31,6 +31,12 @@ CHECKS["C18"] = dict(
     ref="DESIGN.md section 4 / C18",
 )
 
+CHECKS["C08"] = dict(
+    technique="static analysis: who-may-write enumeration of every store to the tree representation with alias-tracked child lists, shape checks of the primitives, cross-reference of the import-introspected shared-Expr inventory with every syntactic reference",
+    text="The parent/arg_key/index/hash invariant is kept by a handful of primitives; the check enumerates every other store to the representation in the whole package (args items, pointer fields, _hash, raw list mutation of child lists incl. local aliases) and requires each to be a primitive, a provably sound form, or a reviewed exception; checks invalidate-before-write in set/append and unfiltered mirroring in __deepcopy__; and classifies every reference to a process-wide Expr instance as read/copy/compare vs embedding. Breaking the invariant from outside the primitives requires one of the flagged constructs; index arithmetic inside the primitives is trusted.",
+    ref="DESIGN.md section 4 / C08",
+)
+
 NOT_APPLICABLE = {
     "C02": "oracle is SQLite/DuckDB evaluation semantics (NULL ordering, division, || precedence); not present in the source, no structural clause implies row equality",
     "C03": "result-multiset equality of optimized vs original query over all databases; guards are semantic conditions, only checkable as frozen fragments (false-alarm prone)",
